@@ -108,7 +108,7 @@ def nontrivial(case):
 PROFILES_QUICK = [("closure", 1, ["A", "E"]), ("core", 6, ["E"]), ("lambda", 5, ["E"]), ("lambda", 4, ["A", "C"]), ("constr", 4, ["C", "E"]),
                   ("poly", 4, ["E"]), ("arith", 3, ["A", "E"]), ("bytes", 3, ["A", "B", "C", "D", "E"]),
                   ("data", 3, ["E"]), ("bits", 3, ["D", "E"])]
-PROFILES_THOROUGH = [("closure", 1, SEMS), ("core", 6, SEMS), ("lambda", 6, ["E"]), ("lambda", 5, SEMS), ("constr", 5, ["C", "E"]), ("poly", 5, ["A", "E"]),
+PROFILES_THOROUGH = [("closure", 1, SEMS), ("core", 6, SEMS), ("lambda", 5, SEMS), ("constr", 5, ["C", "E"]), ("poly", 5, ["A", "E"]),
                      ("arith", 4, SEMS), ("bytes", 4, SEMS), ("data", 4, ["A", "E"]), ("bits", 4, ["D", "E"])]
 
 
